@@ -706,6 +706,30 @@ fn check_skip(beh: &Beh, built: &Built, sink: &Sink) {
 			o => viols.push(viol("skip_rewrite_slpp", &c, o.kind(), o.detail())),
 		}
 	}
+	// the replay does not start at position 0 of its stream (it follows other data, and other data follows it)
+	{
+		let k = 1 + (fnv(&built.bytes) % 700) as usize;
+		let mut data = vec![0xEEu8; k];
+		data.extend_from_slice(&built.bytes);
+		data.extend_from_slice(&built.bytes[..built.bytes.len().min(64)]);
+		for hash in [false, true] {
+			let c = format!("{},hash={},stream_offset", cls, hash);
+			let opts = peppi::io::slippi::de::Opts { skip_frames: true, compute_hash: hash, debug: None };
+			let mut cur = std::io::Cursor::new(&data[..]);
+			cur.set_position(k as u64);
+			match crate::util::guard(|| peppi::io::slippi::read(&mut cur, Some(&opts))) {
+				Outcome::Ok(g) => {
+					if let Some(m) = same_meta(&full, &g) {
+						viols.push(viol("skip_vs_full", &c, "mismatch", format!("replay at stream offset {}: {}", k, m)));
+					}
+					if hash && g.hash.as_deref() != Some(crate::streamchk::xxh3_hex(&built.bytes).as_str()) {
+						viols.push(viol("skip_hash", &c, "mismatch", format!("replay at stream offset {}: hash {:?}", k, g.hash)));
+					}
+				}
+				o => viols.push(viol("skip_read", &c, o.kind(), format!("replay at stream offset {}: {}", k, o.detail()))),
+			}
+		}
+	}
 	// the .slpp reader's own skip option
 	let full2 = real::read_slp(&built.bytes, false, false).ok().unwrap();
 	match real::write_slpp(full2, Comp::Lz4) {
